@@ -12,7 +12,17 @@
 #include <stdexcept>
 #include <string>
 #include <vector>
+// narrower fallback builds (props/C17/check.py retries with these when the full harness does not compile against the tree):
+//   -DC17_NO_RP        without Array3DRepeater;  -DC17_NO_ADAPTORS  without any adaptor;  -DC17_NO_ARRAYS  index maps, for_each, iterators only
+#ifdef C17_NO_ARRAYS
+#define C17_NO_ADAPTORS
+#endif
+#ifdef C17_NO_ADAPTORS
+#define C17_NO_RP
+#endif
+#ifndef C17_NO_ARRAYS
 #include "rkcommon/array3D/Array3D.h"
+#endif
 #include "rkcommon/array3D/for_each.h"
 #include "rkcommon/math/box.h"
 #include "rkcommon/utility/multidim_index_sequence.h"
@@ -41,6 +51,7 @@ static int value(int seed, int i)
   u64 h = ((u64)(i + 1) * (u64)(seed + 7) * 2654435761ULL) & 0xFFFFFFFFULL;
   return (int)((h >> 16) % 23) - 11;
 }
+#ifndef C17_NO_ARRAYS
 template <typename T, typename F>
 static std::shared_ptr<ActualArray3D<T>> filled(const vec3i &d, F f)
 {
@@ -87,6 +98,8 @@ static std::string set_throws(A &arr)
   try { arr.set(vec3i(0), 1); } catch (const std::runtime_error &) { return ""; }
   return " set-does-not-throw";
 }
+
+#endif
 
 int main()
 {
@@ -235,6 +248,7 @@ int main()
             + (it != multidim_index_iterator<2>(d, it.current()) ? "1" : "0");
       }
       out << "D " << dimtxt << " C " << join(c) << " E " << eqtxt;
+#ifndef C17_NO_ARRAYS
     } else if (k == "AR") {
       vec3i d;
       int n;
@@ -257,24 +271,32 @@ int main()
           for (int xx = 0; xx < d.x; ++xx)
             x.push_back(su(a.indexOf(vec3i(xx, y, z))));
       out << "N " << su(a.numElements()) << " G " << join(g) << " X " << join(x);
+#endif
+#ifndef C17_NO_ADAPTORS
     } else if (k == "SH") {
       vec3i d, s;
       in >> d.x >> d.y >> d.z >> s.x >> s.y >> s.z;
       auto base = filled<int>(d, [](int i) { return 1 + i; });
       IndexShiftedArray3D<int> sh(base, s);
       out << show_arr(sh, -2, d.x + 2, -2, d.y + 2, -2, d.z + 2, true) << set_throws(sh);
+#endif
+#ifndef C17_NO_RP
     } else if (k == "RP") {
       vec3i d, r;
       in >> d.x >> d.y >> d.z >> r.x >> r.y >> r.z;
       std::shared_ptr<Array3D<int>> base = filled<int>(d, [](int i) { return 1 + i; });
       Array3DRepeater<int> rp(base, r);
       out << show_arr(rp, -2, 2 * r.x + 2, -2, 2 * r.y + 2, -2, 2 * r.z + 2, true);
+#endif
+#ifndef C17_NO_ADAPTORS
     } else if (k == "SB") {
       vec3i d, lo, hi;
       in >> d.x >> d.y >> d.z >> lo.x >> lo.y >> lo.z >> hi.x >> hi.y >> hi.z;
       auto base = filled<int>(d, [](int i) { return 1 + i; });
       SubBoxArray3D<int> sb(base, box3i(lo, hi));
       out << show_arr(sb, -2, hi.x - lo.x + 2, -2, hi.y - lo.y + 2, -2, hi.z - lo.z + 2, true) << set_throws(sb);
+#endif
+#ifndef C17_NO_ADAPTORS
     } else if (k == "AC") {
       vec3i d;
       int seed;
@@ -291,6 +313,8 @@ int main()
           }
       out << "S " << s3(af.size()) << " N " << su(af.numElements()) << " GF " << join(gf) << " GB " << join(gb);
       if (!(ab.size() == af.size()) || ab.numElements() != af.numElements()) out << " accessor-size-differs";
+#endif
+#ifndef C17_NO_ADAPTORS
     } else if (k == "MS") {
       int dx, dy, dzs, n, seed;
       in >> dx >> dy >> dzs >> n >> seed;
@@ -299,6 +323,8 @@ int main()
         slices.push_back(filled<int>(vec3i(dx, dy, dzs), [seed, s](int i) { return value(seed + s, i); }));
       MultiSliceArray3D<int> ms(slices);
       out << show_arr(ms, 0, dx, 0, dy, -2, n + 2, false) << set_throws(ms);
+#endif
+#ifndef C17_NO_ARRAYS
     } else if (k == "VR") {
       vec3i d, b, e;
       int seed;
@@ -311,6 +337,8 @@ int main()
         range_t<int> f = base->getValueRange();
         if (f.empty() != r.empty() || (!f.empty() && (f.lower != r.lower || f.upper != r.upper))) out << " full-overload-differs";
       }
+#endif
+#ifndef C17_NO_ADAPTORS
     } else if (k == "VA") {
       // getValueRange THROUGH an adaptor, together with the adaptor's own get() over the same region:
       // "VA kind dx dy dz seed p0..p5 bx by bz ex ey ez" -> "R lo hi|empty G v,v,..."
@@ -332,7 +360,9 @@ int main()
       }
       else if (kind == "SH") { IndexShiftedArray3D<int> a(base, vec3i(p[0], p[1], p[2])); out << show_range(a, b, e); }
       else if (kind == "SB") { SubBoxArray3D<int> a(base, box3i(vec3i(p[0], p[1], p[2]), vec3i(p[3], p[4], p[5]))); out << show_range(a, b, e); }
+#ifndef C17_NO_RP
       else if (kind == "RP") { Array3DRepeater<int> a(base, vec3i(p[0], p[1], p[2])); out << show_range(a, b, e); }
+#endif
       else if (kind == "MS") {
         std::vector<std::shared_ptr<Array3D<int>>> slices;
         for (int s2 = 0; s2 < p[0]; ++s2)
@@ -340,7 +370,9 @@ int main()
         MultiSliceArray3D<int> a(slices);
         out << show_range(a, b, e);
       }
-      else out << "bad-kind";
+      else out << "unsupported-in-this-build";
+#endif
+#ifndef C17_NO_ARRAYS
     } else if (k == "BG") {
       // a >2^32-cell array of bytes in untouched (lazily zero) virtual memory: nothing is allocated
       // until a page is written.  "BG dx dy dz x y z v idx": set(c, v); observe get(c), the raw byte at
@@ -362,10 +394,11 @@ int main()
         }
         munmap(mem, bytes);
       }
+#endif
     } else {
-      out << "bad-case";
+      out << "unsupported-in-this-build";
     }
-    std::cout << out.str() << "\n";
+    std::cout << out.str() << std::endl;   // flushed per case: after a crash the last complete line identifies the failing case
   }
   return 0;
 }
